@@ -67,6 +67,9 @@ BOUND = {
                 "2-D N=2..4 and the integer 1-array hyper-parameter form for GMRF; otherwise as quick",
 }
 ASSUMPTIONS = [
+    "far-tail points of the iid families (centre +- 60/2000 scale, 2000 scale above / 2^-40 scale next to a finite bound, "
+    "exp(mean +- 40 sd) for Lognormal): the documented log-density is finite there although the density under/overflows; "
+    "logpdf must equal it at 1e-9 (a refusal is accepted)",
     "values outside the dyadic catalogues (3 catalogues) and dimensions outside the listed ones are not covered",
     "overall scales other than 2^-30, 1, 2^30 are not covered; the scale facet is applied to the Gaussian covariance "
     "only (not to the iid families / MRFs); representations other than float64, int64 and python int/float (e.g. "
@@ -890,6 +893,26 @@ def _fam_points(fam, P, dim):
     return inside, outside
 
 
+def _far_points(fam, P, dim, Sigma=None):
+    """Points of the support where the density is far outside the floating-point range (or next to a boundary)."""
+    lo, hi, ctr, sc = _support(fam, P, dim)
+    if fam == "Lognormal":
+        sd = np.sqrt(np.diag(Sigma))
+        m = np.broadcast_to(P["mean"], (dim,)).astype(float)
+        return [("exp(mean+40 sd)", np.exp(m + 40.0 * sd)), ("exp(mean-40 sd)", np.exp(m - 40.0 * sd))]
+    out = []
+    if np.all(np.isfinite(lo)) and np.all(np.isfinite(hi)):
+        out.append(("next to the lower bound", lo + (hi - lo) * 2.0 ** -40))
+        out.append(("next to the upper bound", hi - (hi - lo) * 2.0 ** -40))
+    elif np.all(np.isfinite(lo)):
+        out.append(("lo + 2000 scale", lo + 2000.0 * sc))
+        out.append(("lo + 2^-40 scale", lo + 2.0 ** -40 * sc))
+    else:
+        out.append(("centre + 60 scale", ctr + 60.0 * sc))
+        out.append(("centre - 2000 scale", ctr - 2000.0 * sc))
+    return out
+
+
 def _fam_configs(fam, dl):
     """(pass, geometry kind, {vectorisable parameter: 'scalar'|'vector'}) for one dimension label."""
     vecs = [n for n, kind in _SPEC[fam] if not kind.endswith("scalar")]
@@ -1037,6 +1060,23 @@ def _family_config(cuqi, cls, res, tally, cell, fam, fac, shapes, dim, dl, sc, v
         tally.ok("logpdf", fac)
     else:
         tally.fail("logpdf", fac, msg, impl=lp, ref=rf, params={n: eff[n] for n in eff})
+    if not upto_const:
+        # far-tail points: the density itself under/overflows in floating point there, its logarithm does not
+        for lab, x in _far_points(fam, eff, dim, Sigma):
+            r = ref(x)
+            if not np.isfinite(r):
+                continue
+            st, v = _call(res, d.logpdf, x)
+            res.transitions += 1
+            if st == "ok" and close(v, r, 1e-9):
+                tally.ok("logpdf-far-tail", fac)
+            elif st == "raised":
+                res.refused += 1
+                res.outcomes.add("%s:far-tail-refused:%s" % (fam, type(v).__name__))
+            else:
+                tally.fail("logpdf-far-tail", fac, "%s.logpdf = %r at the far-tail point %s (%s); the documented log-density is %r"
+                           % (fam, v, np.asarray(x).tolist(), lab, r))
+                break
     if np.all(np.isfinite(ld)):
         if _const(ld - lp):
             tally.ok("logd-constant", fac)
